@@ -35,15 +35,18 @@ extern ssize_t mpt_stream_append(MPT_STRUCT(stream) *srm, const MPT_STRUCT(messa
 	
 	total = 0;
 	while (1) {
-		ssize_t curr = mpt_stream_push(srm, used, base);
-		
-		if (curr < 0) {
-			return MPT_ERROR(BadOperation);
-		}
-		total += curr;
-		if ((used -= curr)) {
-			base += curr;
-			continue;
+		/* zero length push would terminate message */
+		if (used) {
+			ssize_t curr = mpt_stream_push(srm, used, base);
+			
+			if (curr < 0) {
+				return MPT_ERROR(BadOperation);
+			}
+			total += curr;
+			if ((used -= curr)) {
+				base += curr;
+				continue;
+			}
 		}
 		if (!clen--) {
 			return total;
